@@ -31,6 +31,15 @@ KramersMaximal(E, G, th) ==
 (* get_bands_in_range(emin, emax, E, th, kr): the groups whose energy span [E[ib1], E[ib2-1]] meets [emin, emax] *)
 GroupsInRange(E, th, kr, emin, emax) ==
    SelectSeq(Borders(E, th, kr), LAMBDA g : E[g[2]] >= emin /\ E[g[1] + 1] <= emax)
+(* what the properties need of a set S of band groups "in the range [emin, emax]": whole groups of the partition only,
+   every group that strictly overlaps the range is present, no group strictly outside it; whether a group that only
+   touches an end of the range (top = emin or bottom = emax) is listed is a free choice of the implementation (closed
+   or open ends change no result: such a group is completely occupied / empty at every level of the range) *)
+InRangeAdmissible(E, th, kr, emin, emax, S) ==
+   LET B == Borders(E, th, kr)  BS == {B[j] : j \in 1..Len(B)} IN
+   /\ S \subseteq BS
+   /\ \A g \in BS : (E[g[2]] > emin /\ E[g[1] + 1] < emax) => g \in S
+   /\ \A g \in S : E[g[2]] >= emin /\ E[g[1] + 1] <= emax
 (* get_bands_below_range(emin, E) : number of bands strictly below emin *)
 BandsBelow(E, emin) == Cardinality({i \in 1..Len(E) : E[i] < emin})
 BandsAboveStart(E, emax) == Len(E) - Cardinality({i \in 1..Len(E) : E[i] > emax})
